@@ -3,6 +3,7 @@ pub mod conc;
 pub mod corr;
 pub mod crash;
 pub mod fault;
+pub mod golden;
 pub mod live;
 pub mod migr;
 pub mod seq;
@@ -17,6 +18,7 @@ static LIVE: live::LiveEngine = live::LiveEngine;
 static MIGR: migr::MigrEngine = migr::MigrEngine;
 static CORR: corr::CorrEngine = corr::CorrEngine;
 static CACHE: cache::CacheEngine = cache::CacheEngine;
+static GOLDEN: golden::GoldenEngine = golden::GoldenEngine;
 
 pub fn engine_by_name(name: &str) -> &'static dyn Engine {
     match name {
@@ -28,6 +30,7 @@ pub fn engine_by_name(name: &str) -> &'static dyn Engine {
         "migr" => &MIGR,
         "corr" => &CORR,
         "cache" => &CACHE,
+        "golden" => &GOLDEN,
         other => {
             eprintln!("unknown engine {other}");
             std::process::exit(2);
@@ -85,7 +88,7 @@ pub fn plan(property: &str) -> Option<Plan> {
         "C01" => (vec![stage("seq", "C01", 24_000, 400_000)], "exploration"),
         "C05" => (vec![stage("seq", "C05", 20_000, 300_000)], "exploration"),
         "C09" => (vec![stage("fault", "C09", 8_000, 100_000)], "fault_enumeration"),
-        "C10" => (vec![stage("seq", "C10", 20_000, 300_000)], "exploration"),
+        "C10" => (vec![stage("seq", "C10", 20_000, 300_000), stage("golden", "C10", 600, 6_000), stage("migr", "C10", 2_000, 30_000)], "exploration"),
         "C07" => (vec![stage("conc", "C07", 60_000, 1_500_000)], "exploration"),
         "C18" => (
             vec![
